@@ -127,6 +127,8 @@ func C11Scenarios(tier string) []*h.Scenario {
 			// a hand-made escalator taint that is not a time on the oldest untainted nodes (dry mode tracks
 			// taints itself and must leave the real one alone), and an instance that never joins the cluster
 			// (the cloud target runs ahead of the registered nodes)
+			// a burst large enough for a (simulated) cloud scale-up in one step
+			ev = append(ev, evBurst(gg, 7, 1000))
 			ev = append(ev, evExtTaint(names[1], "abc"), evExtTaint(names[2], "abc"),
 				h.Event{Label: "instance-never-joins(+1)", Apply: func(hh *h.Hist) {
 					if a := hh.W.FindASG(gg.ASG.Name); a != nil && a.Desired < a.Max {
